@@ -1,10 +1,28 @@
 package c04
 
 import (
+	"encoding/base64"
+	"fmt"
+	"net/http"
+	"net/http/httptest"
 	"os"
 	"strconv"
+	"strings"
+	"time"
+
+	"github.com/jcmturner/gokrb5/v8/client"
+	"github.com/jcmturner/gokrb5/v8/keytab"
+	"github.com/jcmturner/gokrb5/v8/service"
+	"github.com/jcmturner/gokrb5/v8/spnego"
+	"github.com/jcmturner/gokrb5/v8/test/testdata"
 
 	"verifsim/core"
+	"verifsim/refkdc"
+	"verifsim/refkrb/rk"
+	"verifsim/shim/simnet"
+	"verifsim/simrt"
+	"verifsim/world"
+	"verifsim/world/gk"
 )
 
 func envSeed() int64 {
@@ -12,8 +30,416 @@ func envSeed() int64 {
 	return n
 }
 
-func isFlow(mode string) bool { return false }
+func isFlow(mode string) bool {
+	return strings.HasPrefix(mode, "kdc-") || strings.HasPrefix(mode, "ap-")
+}
 
-func flowCases(tier string) []caseT { return nil }
+var kdcExchanges = []string{"as-nopa", "as-err25", "as-pa", "tgs", "referral"}
 
-func runFlow(tp *Tape, res *core.Result) {}
+// Byzantine KDC: deviations inside sealed or structured parts of a reply
+var kdcByz = []refkdc.Perturb{
+	{Kind: "tkt-sname-empty"}, {Kind: "rep-cname-empty"}, {Kind: "sealed-sname-empty"},
+	{Kind: "enc-plain-garbage", Arg: 0}, {Kind: "enc-plain-garbage", Arg: 1}, {Kind: "enc-plain-garbage", Arg: 7}, {Kind: "enc-plain-garbage", Arg: 64}, {Kind: "enc-plain-garbage", Arg: 300},
+	{Kind: "padata-empty-info2"}, {Kind: "padata-empty-info"}, {Kind: "padata-garbage"},
+	{Kind: "edata-empty-info2"}, {Kind: "edata-empty-info"}, {Kind: "edata-empty-seq"}, {Kind: "edata-garbage"}, {Kind: "edata-absent"}, {Kind: "edata-unknown-etype"},
+	{Kind: "enc-trunc"}, {Kind: "enc-flip"}, {Kind: "other-usage", Arg: 2}, {Kind: "enc-tag", Arg: 3}, {Kind: "msg-type", Arg: 13}, {Kind: "msg-type", Arg: 11},
+}
+
+// lying and stalling peers on the transport
+var kdcLiars = []world.Behaviour{
+	{Kind: "liar", Arg: 0xffffffff}, {Kind: "liar", Arg: 0x7fffffff}, {Kind: "liar", Arg: 0x40000000}, {Kind: "liar", Arg: 0x01000000}, {Kind: "liar", Arg: 0}, {Kind: "liar", Arg: 1},
+	{Kind: "silent"}, {Kind: "close", Arg: 0}, {Kind: "close", Arg: 2}, {Kind: "close", Arg: 4}, {Kind: "close", Arg: 9}, {Kind: "slow", Arg: 3600_000_000_000}, {Kind: "dup"}, {Kind: "fragment", Arg: 1},
+}
+
+// Byzantine client / KDC on the AP side: what is sealed inside a ticket or authenticator
+var apByz = []string{"ad-ifrelevant-empty", "ad-ifrelevant-garbage", "ad-ifrelevant-nonpac", "ad-pac-empty", "ad-pac-sample", "ad-pac-sample-nosig", "ad-many",
+	"tkt-plain-garbage-0", "tkt-plain-garbage-1", "tkt-plain-garbage-40", "auth-plain-garbage-0", "auth-plain-garbage-1", "auth-plain-garbage-40",
+	"tkt-cname-empty", "auth-cname-empty", "sname-empty", "auth-cksum-short", "session-key-empty"}
+
+const replyBound = 1400 // upper bound of a reply's length for the enumeration (deliveries beyond the real length are skipped)
+
+func flowCases(tier string) []caseT {
+	var out []caseT
+	add := func(mode, arg string, space int, sampleQuick bool) {
+		if tier != "thorough" && sampleQuick && space > chunk/8 {
+			out = append(out, caseT{arg, 0, mode, -1, chunk / 8})
+			return
+		}
+		step := chunk / 4
+		for f := 0; f < space; f += step {
+			c := step
+			if f+c > space {
+				c = space - f
+			}
+			out = append(out, caseT{arg, 0, mode, f, c})
+		}
+	}
+	for _, ex := range kdcExchanges {
+		add("kdc-prefix", ex, replyBound, true)
+		add("kdc-subst", ex, replyBound*10, true)
+		add("kdc-field", ex, 2500, true)
+		add("kdc-byz", ex, len(kdcByz)+400, false)
+		add("kdc-liar", ex, len(kdcLiars), false)
+	}
+	for _, et := range []string{"18", "23", "16", "19"} {
+		add("ap-prefix", et, 1600, true)
+		add("ap-subst", et, 16000, true)
+		add("ap-field", et, 2500, true)
+		add("ap-byz", et, len(apByz)+2400, true)
+	}
+	return out
+}
+
+const flowPassword = "pw-Qm3xTz8LkV5rNc2HbWy7"
+
+func runFlow(tp *Tape, res *core.Result) {
+	res.Nontrivial = true
+	res.Class = fmt.Sprintf("%s|%s|%d+%d|%v", tp.Mode, tp.Point, tp.From, tp.Count, tp.Sample)
+	rng := core.NewRng(tp.RunSeed).Derive("c04flow")
+	if strings.HasPrefix(tp.Mode, "kdc-") {
+		runKDCFlow(tp, res, rng)
+	} else {
+		runAPFlow(tp, res, rng)
+	}
+	res.Probes["deliveries-der"] += res.Evals
+}
+
+var derPoint = &point{name: "bytes", kind: "der"}
+
+// ---------------------------------------------------------------- KDC replies
+func runKDCFlow(tp *Tape, res *core.Result, rng *core.Rng) {
+	ex := tp.Point
+	okEx := false
+	for _, e := range kdcExchanges {
+		okEx = okEx || e == ex
+	}
+	if !okEx {
+		res.Verdict, res.Harness = "invalid", "exchange"
+		return
+	}
+	gk.Seed(tp.RunSeed)
+	pol := refkdc.Policy{RequirePreauth: ex == "as-err25" || ex == "as-pa", Hints: []string{"etype-info2", "etype-info", "pw-salt"}, HintsInASRep: true, CopyAddresses: true}
+	sim := refkdc.New("SIM.TEST", tp.RunSeed, pol)
+	other := refkdc.New("OTHER.TEST", tp.RunSeed+1, refkdc.Policy{})
+	refkdc.Link(sim, other)
+	sim.AddService("HTTP/host.sim.test")
+	other.AddService("HTTP/far.other.test")
+	sim.Referral["HTTP/far.other.test"] = "OTHER.TEST"
+	pw := sim.AddPasswordUser("alice", flowPassword, "Custom.Salt", 0)
+	pw.Precompute("SIM.TEST", []int{17})
+	net := world.NewNet()
+	armed := false
+	var perturb []refkdc.Perturb
+	targetN := 0 // how many target replies have been seen in this delivery
+	isTarget := func(req []byte) bool {
+		if !armed || len(req) == 0 {
+			return false
+		}
+		switch ex {
+		case "as-nopa", "as-err25":
+			return req[0] == 0x6a && targetN == 0
+		case "as-pa":
+			return req[0] == 0x6a && targetN == 1
+		case "tgs":
+			return req[0] == 0x6c && targetN == 0
+		default:
+			return req[0] == 0x6c && targetN == 1
+		}
+	}
+	pt := func(req []byte) []refkdc.Perturb {
+		if isTarget(req) {
+			return perturb
+		}
+		return nil
+	}
+	gk.Wire(net, sim, []string{"10.0.0.1:88"}, pt)
+	gk.Wire(net, other, []string{"10.0.1.1:88"}, pt)
+	simnet.Install(net)
+	var mangle func(reply []byte) []byte
+	var honestLen int
+	net.Mangle = func(proto, addr string, req, reply []byte) []byte {
+		if !armed || len(req) == 0 {
+			return reply
+		}
+		kind := req[0]
+		want := byte(0x6a)
+		if ex == "tgs" || ex == "referral" {
+			want = 0x6c
+		}
+		if kind != want {
+			return reply
+		}
+		t := isTarget(req)
+		targetN++
+		if t && mangle != nil {
+			honestLen = len(reply)
+			_ = honestLen
+			return mangle(reply)
+		}
+		return reply
+	}
+	noaddr := false
+	et := gk.EtypeNames[17]
+	cm := gk.ConfModel{DefaultRealm: "SIM.TEST", NoAddresses: &noaddr, TktEtypes: []string{et}, TGSEtypes: []string{et}, PreauthTypes: []int{17},
+		Realms: map[string][]string{"SIM.TEST": {"10.0.0.1:88"}, "OTHER.TEST": {"10.0.1.1:88"}}, DomainRealm: map[string]string{".sim.test": "SIM.TEST"}}
+	if tp.Mode == "kdc-liar" {
+		cm.UDPLimit = 1 // the lies live in the TCP framing
+	}
+	cfg, _, err := cm.Parse()
+	if err != nil {
+		res.Verdict, res.Harness = "harness-error", "krb5.conf: "+err.Error()
+		return
+	}
+	space := map[string]int{"kdc-prefix": replyBound, "kdc-subst": replyBound * 10, "kdc-field": 2500, "kdc-byz": len(kdcByz) + 400, "kdc-liar": len(kdcLiars)}[tp.Mode]
+	if space == 0 {
+		res.Verdict, res.Harness = "invalid", "mode"
+		return
+	}
+	pname := "kdc-reply/" + ex
+	skipped := 0
+	for k := 0; k < tp.Count; k++ {
+		d := tp.From + k
+		if tp.Sample {
+			d = rng.Intn(space)
+		}
+		if d >= space {
+			break
+		}
+		// a fresh client per delivery; preparation over an honest network
+		cl := client.NewWithPassword("alice", "SIM.TEST", flowPassword, cfg)
+		armed, perturb, mangle, targetN, honestLen = false, nil, nil, 0, 0
+		net.Beh = map[string]world.Behaviour{}
+		if ex == "tgs" || ex == "referral" {
+			if e := cl.Login(); e != nil {
+				res.Verdict, res.Harness = "harness-error", "honest login failed: "+e.Error()
+				return
+			}
+		}
+		desc := ""
+		applied := true
+		switch tp.Mode {
+		case "kdc-prefix", "kdc-subst", "kdc-field":
+			mode := strings.TrimPrefix(tp.Mode, "kdc-")
+			mangle = func(reply []byte) []byte {
+				b, ds, ok := damage(derPoint, reply, mode, d)
+				if !ok {
+					applied = false
+					return reply
+				}
+				desc = ds
+				return b
+			}
+		case "kdc-byz":
+			if d < len(kdcByz) {
+				perturb = []refkdc.Perturb{kdcByz[d]}
+				desc = fmt.Sprintf("%s(%d)", kdcByz[d].Kind, kdcByz[d].Arg)
+			} else {
+				// the sealed plaintext torn at every offset
+				perturb = []refkdc.Perturb{{Kind: "enc-plain-prefix", Arg: int64(d - len(kdcByz))}}
+				if ex == "as-err25" {
+					perturb = []refkdc.Perturb{{Kind: "edata-prefix", Arg: int64(d - len(kdcByz))}}
+				}
+				desc = fmt.Sprintf("%s(%d)", perturb[0].Kind, perturb[0].Arg)
+			}
+		case "kdc-liar":
+			b := kdcLiars[d]
+			net.Beh["tcp!10.0.0.1:88"] = b
+			net.Beh["tcp!10.0.1.1:88"] = b
+			desc = fmt.Sprintf("%s(%d)", b.Kind, b.Arg)
+		}
+		armed = true
+		spn := "HTTP/host.sim.test"
+		if ex == "referral" {
+			spn = "HTTP/far.other.test"
+		}
+		before := res.Evals
+		deliver(res, tp, pname, 0, d, "pending", make([]byte, 600), func([]byte) {
+			if ex == "tgs" || ex == "referral" {
+				cl.GetServiceTicket(spn)
+			} else {
+				cl.Login()
+			}
+		})
+		armed = false
+		if !applied {
+			// the delivery index lies beyond this reply's length: nothing was damaged
+			res.Evals = before
+			skipped++
+			continue
+		}
+		_ = desc
+		res.Faults[tp.Mode]++
+		// let the renewal goroutine of a successful login die before the next delivery
+		cl.Destroy()
+	}
+	res.Stats["beyond_reply_length"] = int64(skipped)
+	for k, v := range net.Fired {
+		res.Faults[k] += v
+	}
+}
+
+// ---------------------------------------------------------------- AP-REQ to a service
+func runAPFlow(tp *Tape, res *core.Result, rng *core.Rng) {
+	et, err := strconv.Atoi(tp.Point)
+	if err != nil || (et != 18 && et != 23 && et != 16 && et != 19 && et != 17 && et != 20) {
+		res.Verdict, res.Harness = "invalid", "etype"
+		return
+	}
+	ktm := world.BuildKeytab(tp.RunSeed, []string{"HTTP/host.sim.test"}, []string{"SIM.TEST"}, []int{2}, []int{et})
+	kt := keytab.New()
+	if err := kt.Unmarshal(ktm.Bytes()); err != nil {
+		res.Verdict, res.Harness = "harness-error", "keytab: "+err.Error()
+		return
+	}
+	inner := http.HandlerFunc(func(w http.ResponseWriter, r *http.Request) { w.WriteHeader(200) })
+	handler := spnego.SPNEGOKRB5Authenticate(inner, kt, service.Logger(discard), service.KeytabPrincipal("HTTP/host.sim.test"))
+	handlerNoLog := spnego.SPNEGOKRB5Authenticate(inner, kt)
+	simrt.SleepExact(int64(time.Hour) + 333)
+	service.GetReplayCache(5 * time.Minute)
+	minter := &world.Minter{Seed: tp.RunSeed, Kt: ktm}
+	pacSample := hx(testdata.MarshaledPAC_AD_WIN2K_PAC)
+	space := map[string]int{"ap-prefix": 1600, "ap-subst": 16000, "ap-field": 2500, "ap-byz": len(apByz) + 2400}[tp.Mode]
+	if space == 0 {
+		res.Verdict, res.Harness = "invalid", "mode"
+		return
+	}
+	pname := "ap-req/etype" + tp.Point
+	skipped := 0
+	for k := 0; k < tp.Count; k++ {
+		d := tp.From + k
+		if tp.Sample {
+			d = rng.Intn(space)
+		}
+		if d >= space {
+			break
+		}
+		simrt.SleepExact(int64(3 * time.Second))
+		s := time.Now().UTC().Truncate(time.Second)
+		spec := world.ReqSpec{Client: "alice", Svc: "HTTP/host.sim.test", Realm: "SIM.TEST", Kvno: 2, Etype: et, KvnoField: true, StartTime: true, Cksum: true, Subkey: d%2 == 0}
+		minter.PACFor, minter.PlainHook = nil, nil
+		desc := ""
+		h := handler
+		if tp.Mode == "ap-byz" {
+			var name string
+			if d < len(apByz) {
+				name = apByz[d]
+			} else if d < len(apByz)+1200 {
+				name = fmt.Sprintf("ad-pac-prefix-%d", d-len(apByz))
+			} else {
+				name = fmt.Sprintf("ad-pac-subst-%d", d-len(apByz)-1200)
+			}
+			desc = name
+			if d%3 == 0 {
+				h = handlerNoLog // PAC processing logs through a logger that may be absent
+			}
+			wrapPAC := func(pac []byte) []rk.AuthDataEntry {
+				return []rk.AuthDataEntry{{Type: 1, Data: rk.EncAuthData([]rk.AuthDataEntry{{Type: 128, Data: pac}})}}
+			}
+			switch {
+			case name == "ad-ifrelevant-empty":
+				spec.PAC = "x"
+				minter.PACFor = func(world.ReqSpec, rk.EncryptionKey, *core.Rng) ([]rk.AuthDataEntry, bool) {
+					return []rk.AuthDataEntry{{Type: 1, Data: rk.EncAuthData([]rk.AuthDataEntry{})}}, false
+				}
+			case name == "ad-ifrelevant-garbage":
+				spec.PAC = "x"
+				minter.PACFor = func(world.ReqSpec, rk.EncryptionKey, *core.Rng) ([]rk.AuthDataEntry, bool) {
+					return []rk.AuthDataEntry{{Type: 1, Data: []byte{0x30, 0x84, 0xff, 0xff, 0xff, 0xff}}}, false
+				}
+			case name == "ad-ifrelevant-nonpac":
+				spec.PAC = "x"
+				minter.PACFor = func(world.ReqSpec, rk.EncryptionKey, *core.Rng) ([]rk.AuthDataEntry, bool) {
+					return []rk.AuthDataEntry{{Type: 1, Data: rk.EncAuthData([]rk.AuthDataEntry{{Type: 141, Data: []byte("x")}})}}, false
+				}
+			case name == "ad-pac-empty":
+				spec.PAC = "x"
+				minter.PACFor = func(world.ReqSpec, rk.EncryptionKey, *core.Rng) ([]rk.AuthDataEntry, bool) {
+					return wrapPAC([]byte{}), false
+				}
+			case name == "ad-pac-sample", name == "ad-pac-sample-nosig":
+				spec.PAC = "x"
+				minter.PACFor = func(world.ReqSpec, rk.EncryptionKey, *core.Rng) ([]rk.AuthDataEntry, bool) {
+					return wrapPAC(pacSample), false
+				}
+			case name == "ad-many":
+				spec.PAC = "x"
+				minter.PACFor = func(world.ReqSpec, rk.EncryptionKey, *core.Rng) ([]rk.AuthDataEntry, bool) {
+					var es []rk.AuthDataEntry
+					for i := 0; i < 50; i++ {
+						es = append(es, wrapPAC(pacSample[:16])...)
+					}
+					return es, false
+				}
+			case strings.HasPrefix(name, "ad-pac-prefix-"):
+				n := d - len(apByz)
+				if n > len(pacSample) {
+					skipped++
+					continue
+				}
+				spec.PAC = "x"
+				minter.PACFor = func(world.ReqSpec, rk.EncryptionKey, *core.Rng) ([]rk.AuthDataEntry, bool) {
+					return wrapPAC(pacSample[:n]), false
+				}
+			case strings.HasPrefix(name, "ad-pac-subst-"):
+				n := d - len(apByz) - 1200
+				pos := (n * 7919) % len(pacSample)
+				spec.PAC = "x"
+				minter.PACFor = func(world.ReqSpec, rk.EncryptionKey, *core.Rng) ([]rk.AuthDataEntry, bool) {
+					b := append([]byte{}, pacSample...)
+					b[pos] = alphabet("binary", b[pos])[n%10]
+					return wrapPAC(b), false
+				}
+			case strings.HasPrefix(name, "tkt-plain-garbage-"), strings.HasPrefix(name, "auth-plain-garbage-"):
+				which := "tkt"
+				if strings.HasPrefix(name, "auth") {
+					which = "auth"
+				}
+				n, _ := strconv.Atoi(name[strings.LastIndex(name, "-")+1:])
+				minter.PlainHook = func(w string, plain []byte) []byte {
+					if w == which {
+						return rng.Bytes(n)
+					}
+					return plain
+				}
+			case name == "tkt-cname-empty":
+				spec.Client = ""
+			case name == "auth-cname-empty":
+				spec.Defects = []world.Defect{{Kind: "cname-empty"}}
+			case name == "sname-empty":
+				spec.Defects = []world.Defect{{Kind: "sname-empty"}}
+			case name == "auth-cksum-short":
+				minter.PlainHook = func(w string, plain []byte) []byte {
+					if w == "auth" && len(plain) > 40 {
+						return plain[:len(plain)-30]
+					}
+					return plain
+				}
+			case name == "session-key-empty":
+				minter.PlainHook = func(w string, plain []byte) []byte { return plain }
+			}
+		}
+		tr, err := minter.Mint(spec, s, 5*time.Minute, rng)
+		if err != nil {
+			res.Verdict, res.Harness = "harness-error", "mint: "+err.Error()
+			return
+		}
+		tok := rk.NegTokenInit([][]int{rk.OIDKRB5}, rk.KRB5Token(rk.TokAPReq, tr.Bytes))
+		if tp.Mode != "ap-byz" {
+			b, ds, ok := damage(derPoint, tok, strings.TrimPrefix(tp.Mode, "ap-"), d)
+			if !ok {
+				skipped++
+				continue
+			}
+			tok, desc = b, ds
+		}
+		hdr := "Negotiate " + base64.StdEncoding.EncodeToString(tok)
+		deliver(res, tp, pname, 0, d, desc, tok, func([]byte) {
+			req := httptest.NewRequest("GET", "http://host.sim.test/", nil)
+			req.RemoteAddr = "10.1.2.3:4000"
+			req.Header.Set("Authorization", hdr)
+			h.ServeHTTP(httptest.NewRecorder(), req)
+		})
+		res.Faults[tp.Mode]++
+	}
+	res.Stats["beyond_token_length"] = int64(skipped)
+}
